@@ -286,7 +286,7 @@ func (e *env) ticketCase(c Case) {
 			if op.FaultGet {
 				fault.arm()
 			}
-			s, flight, hour, err := e.connect(cf, addr, int(rng.Intn(40)))
+			s, flight, hour, err := e.connect(c, cf, addr, int(rng.Intn(40)))
 			fault.clear()
 			wGet := "1"
 			if op.FaultGet {
